@@ -142,6 +142,8 @@ CtxAlphabet(t) ==
   \cup {FS(f, <<m>>) : f \in {"Decset", "Decrst"}, m \in {6, 7, 1047, 1048, 1049}}
   \cup {F2("Decstbm", 2, t.rows), F2("Decstbm", 1, t.rows - 1), F0("Decstr")}
 CtxSizes == {<<3, 3>>}
+(* with and without a context saved far out on the ALTERNATE screen before anything else happens (so that "shrink, come back, restore" fits the depth) *)
+CtxFills == {<<>>, <<27, 91, 63, 49, 48, 52, 55, 104, 27, 91, 57, 57, 59, 57, 57, 72, 27, 55, 27, 91, 63, 49, 48, 52, 55, 108>>}
 CtxLeanAlphabet(t) ==
      {F2("Cup", t.rows, t.cols), F0("Decsc"), F0("Decrc"), F1("Print", 97)}
   \cup {FS(f, <<m>>) : f \in {"Decset", "Decrst"}, m \in {1047, 1049}}
@@ -204,6 +206,14 @@ BatchFills ==
     PairsContent \o <<27, 91, 52, 49, 109, 27, 55, 27, 91, 109, 27, 91, 57, 57, 59, 49, 72>>,     \* CSI 41m ESC 7 CSI m CSI 99;1H  (a saved context with another pen; cursor on the last row)
     PairsContent }
 BatchSizes == {<<3, 4>>}
+
+(* contexts saved far out (on the alternate screen, on the primary screen), then: shrink, switch screens, restore, print *)
+CtxShrinkAlphabet(t) ==
+  {FS(f, <<m>>) : f \in {"Decset", "Decrst"}, m \in {1047, 1048, 1049}} \cup {F0("Decrc"), F0("Scorc"), F1("Print", 97), F0("Lf")}
+CtxShrinkSizes == {<<3, 3>>}
+CtxShrinkFills == {<<27, 91, 63, 49, 48, 52, 55, 104, 27, 91, 57, 57, 59, 57, 57, 72, 27, 55, 27, 91, 63, 49, 48, 52, 55, 108>>,   \* ?1047h CUP 99;99 DECSC ?1047l
+                   <<27, 91, 57, 57, 59, 57, 57, 72, 27, 55, 27, 91, 72>>}                                                   \* CUP 99;99 DECSC CUP
+CtxShrinkResizes(t) == {<<c, r>> \in {<<2, 2>>, <<3, 2>>, <<2, 3>>} : <<c, r>> # <<t.cols, t.rows>>}
 
 \* ------------------------------------------------------------- C11: dump / restore
 DumpAlphabet(t) ==
